@@ -209,10 +209,9 @@ def apply(objs, st, ev):
 
 def near_pi(m):
     try:
-        ang = rf.rot_angle(np.asarray(m, dtype=float)[:3, :3])
+        return rf.in_log_band(np.asarray(m, dtype=float)[:3, :3])
     except Exception:
         return False
-    return 0 < PI - ang < 3e-5
 
 
 def check_history(beh):
